@@ -27,6 +27,7 @@ def load_catalog():
     for e in cat['mutants']:
         e = dict(e)
         e['path'] = os.path.join(ROOT, 'mutants', e['patch'])
+        e['unit_tests_known'] = e.get('passes_unit_tests')
         items.append(e)
     sd = os.path.join(ROOT, 'seeded')
     if os.path.isdir(sd):
@@ -36,7 +37,8 @@ def load_catalog():
                 m = json.load(open(mp))
                 items.append({'patch': 'seeded/%s/patch.diff' % name, 'path': os.path.join(sd, name, 'patch.diff'),
                               'property': m['property'], 'expect': m.get('expect', 'violation'), 'checks': m.get('checks', [m['property']]),
-                              'scale': m.get('scale', 1.0), 'flavours': m.get('flavours')})
+                              'scale': m.get('scale', 1.0), 'flavours': m.get('flavours'),
+                              'unit_tests_known': m.get('confirmed', {}).get('unit_tests_pass_with_change')})
     return items
 
 
@@ -47,6 +49,7 @@ def run(cmd, **kw):
 def main():
     ap = argparse.ArgumentParser()
     ap.add_argument('--only', default=None)
+    ap.add_argument('--plain-first', action='store_true', help='items without an explicit flavour list are first run with the plain flavour only; all flavours only if that does not settle it')
     ap.add_argument('--unit-tests', action='store_true', help='also confirm that the repository test suite passes with the patch')
     ap.add_argument('--keep', action='store_true')
     a = ap.parse_args()
@@ -81,24 +84,39 @@ def main():
             env['VERIF_REPO'] = wt
             env['VERIF_BUILD'] = os.path.join(scratch, 'build')
             env['VERIF_OUT'] = os.path.join(scratch, 'out')
-            verdicts = {}
-            for prop in it.get('checks', [it['property']]):
-                cmd = [sys.executable, os.path.join(ROOT, 'tools', 'check.py'), prop, '--tier', 'quick', '--no-evidence', '--scale', str(it.get('scale', 1.0))]
-                if it.get('flavours'):
-                    cmd += ['--flavours', it['flavours']]
-                r = run(cmd, env=env, cwd=ROOT)
-                classes = sorted(set(l.split('class=')[1].split()[0] for l in r.stdout.splitlines() if 'class=' in l))
-                verdicts[prop] = (r.returncode, classes, r.stdout[-1500:])
             expect = it.get('expect', 'violation')
-            main_rc = verdicts[it['property']][0]
-            good = (main_rc == 1) if expect == 'violation' else all(v[0] == 0 for v in verdicts.values())
+
+            def run_checks(flavours):
+                vd = {}
+                for prop in it.get('checks', [it['property']]):
+                    cmd = [sys.executable, os.path.join(ROOT, 'tools', 'check.py'), prop, '--tier', 'quick', '--no-evidence', '--scale', str(it.get('scale', 1.0))]
+                    if flavours:
+                        cmd += ['--flavours', flavours]
+                    r = run(cmd, env=env, cwd=ROOT)
+                    classes = sorted(set(l.split('class=')[1].split()[0] for l in r.stdout.splitlines() if 'class=' in l))
+                    vd[prop] = (r.returncode, classes, r.stdout[-1500:])
+                # a change is caught when ANY of the checks named for it reports it; a control must be clean in all of them
+                g = any(v[0] == 1 for v in vd.values()) if expect == 'violation' else all(v[0] == 0 for v in vd.values())
+                return vd, g
+
+            flavours_used = it.get('flavours') or 'all'
+            if a.plain_first and not it.get('flavours') and expect == 'violation':
+                verdicts, good = run_checks('plain')
+                flavours_used = 'plain'
+                if not good:
+                    verdicts, good = run_checks(None)
+                    flavours_used = 'all'
+            else:
+                verdicts, good = run_checks(it.get('flavours'))
             ok_all = ok_all and good and (unit is not False)
             print('%-55s %-4s expect=%-9s %s unit_tests=%s %.0fs' % (
                 it['patch'], 'OK' if good else 'MISS', expect,
                 ' '.join('%s:rc=%d%s' % (p, v[0], ('[' + ','.join(v[1]) + ']') if v[1] else '') for p, v in verdicts.items()), unit, time.time() - t0), flush=True)
             if not good:
-                print(verdicts[it['property']][2])
-            results.append({'patch': it['patch'], 'property': it['property'], 'expect': expect, 'ok': good, 'unit_tests_pass': unit,
+                print(verdicts[it['property']][2] if it['property'] in verdicts else '')
+            if unit is None:
+                unit = it.get('unit_tests_known')
+            results.append({'patch': it['patch'], 'property': it['property'], 'expect': expect, 'ok': good, 'unit_tests_pass': unit, 'flavours_used': flavours_used,
                             'verdicts': {p: {'rc': v[0], 'classes': v[1]} for p, v in verdicts.items()}})
         finally:
             run(['git', '-C', REPO, 'worktree', 'remove', '--force', os.path.join(scratch, 'repo')])
